@@ -106,7 +106,14 @@ def handleTaintOp (j : Json) : OpOut :=
         else if getD obs "ok" false && !written && kind == "delete" && hasTaint escKey n then ["C15:delete reported success, yet the fetched node still carries the escalator taint and nothing was written"]
         else []
       | none => []
-    let m15 := m15 ++ mDone
+    -- a write that drops the no-delete annotation the fetched copy carried takes the node's protection away
+    let mAnn : List String := match fetched with
+      | some n => match n.annotations.lookup noDeleteKey with
+        | some v => if oJ.any (fun e => match e.call with | .updateNode o => o.annotations.lookup noDeleteKey != some v | _ => false)
+                    then ["C10:a taint write drops or changes the no-delete annotation the API server's copy of the node carries"] else []
+        | none => []
+      | none => []
+    let m15 := m15 ++ mDone ++ mAnn
     if kind == "add" then
       let r := addTaint o 0 nowSec effect node
       { diffs := (if Spec.canonTaints r.j == Spec.canonTaints oJ then [] else ["journal"]) ++ (if r.val == getD obs "ok" false then [] else ["ok"]) ++ dPanic,
